@@ -6,12 +6,14 @@
    program itself is not available).  Tie: correspondence stage `bas`: the
    automaton is run by coqc on the tokenised REAL generated text and must find
    the counts and choices of the real model; the model writer's sequence must
-   be the real one.  PARTIAL: the values on the lines (coordinates, radii,
-   magnitudes and phases, impedances, coefficients by BASIC version) and the
-   feed impedance of the re-read model are compared by the oracle with an
-   independent reader. *)
-From Coq Require Import ZArith List Bool Arith Lia.
-From PM Require Import Model.Basic Proofs.BasicP.
+   be the real one.  Values: magnitude / phase in degrees of a source and the
+   unit scaling of S-parameter coefficients by BASIC version are EXTRACTED from
+   the source (translator items X20, X21) and proved to read back as the
+   model's values.  PARTIAL: the other values on the lines (coordinates, radii,
+   impedances) and the feed impedance of the re-read model are compared by the
+   oracle with an independent reader. *)
+From Coq Require Import ZArith List Bool Arith Lia Reals.
+From PM Require Import Base.Num Base.RNum Base.Cplx Gen.Extracted Model.Basic Proofs.BasicP Proofs.BasicV.
 Import ListNotations.
 
 (* every answer sequence the writer can produce is accepted by the prompt automaton, completely (nothing left
@@ -26,3 +28,23 @@ Example C18_example :
   wf (mkShape (EMedia 2 true 16) 3 2 (LS [1; 2]) (FAbs true false) (Some true)) /\
   length (write (mkShape (EMedia 2 true 16) 3 2 (LS [1; 2]) (FAbs true false) (Some true))) = 71.
 Proof. split; [cbn; repeat split; try lia; try discriminate|vm_compute; reflexivity]. Qed.
+
+(* --- values on the answer lines, for the formulas the translator extracts from the source (X20, X21) ---
+   a source: the written magnitude and phase IN DEGREES, read back as BASIC reads them, are the complex voltage *)
+Theorem C18_source_magnitude_phase_round_trip :
+  forall v : @Cx RNum, v <> (0, 0)%R -> basic_source_voltage (@src_magnitude RNum v) (@src_phase_d RNum v) = v.
+Proof. exact source_answer_round_trip. Qed.
+Print Assumptions C18_source_magnitude_phase_round_trip.
+
+(* ... which the phase in radians (the defect repaired by fd91e6f) is not *)
+Theorem C18_phase_in_radians_refuted : basic_source_voltage 1 (PI / 2) <> (0, 1)%R.
+Proof. exact radians_refuted. Qed.
+Print Assumptions C18_phase_in_radians_refuted.
+
+(* S-parameter loads: for every BASIC version and every order d the coefficient BASIC works with (micro-units up to
+   version 9) is the model's coefficient *)
+Theorem C18_coefficient_units_round_trip :
+  forall (version9 : bool) (d : Z) (c : Rdefinitions.R),
+    basic_coefficient_value version9 d (c * @bas_coef_scale RNum d (negb version9))%R = c.
+Proof. exact coefficient_answer_round_trip. Qed.
+Print Assumptions C18_coefficient_units_round_trip.
